@@ -273,4 +273,12 @@ example : ∃ s, runFrom pGood (init .server)
 
 example : runFrom pGood (init .server) trace7 = none := by decide
 
+/-- **An ID can be accepted again**: after the brokered server of an ID was shut down, accepting the same ID again yields a
+listener that waits for the next stream. -/
+theorem reaccept_usable (L : ListenerParams) (hL : L.Good) (earlierClosed : Bool) : reacceptUsable L earlierClosed = true := by
+  simp [reacceptUsable, show L.listenerReplaces = true from hL]
+
+/-- Witness: a "get or create" registration hands the closed listener out again -/
+theorem get_or_create_witness : reacceptUsable ⟨false⟩ true = false := by decide
+
 end GoPlugin.Props.C08
